@@ -8,6 +8,7 @@ import (
 	"strconv"
 	"strings"
 	"sync"
+	"time"
 )
 
 // RTSP origin of relay pulls in the lifecycle driver (C03 / C17, configurations with PullRtsp): the gated listener
@@ -18,7 +19,7 @@ import (
 
 const lcRtspOriginSdp = "v=0\r\n" +
 	"o=- 0 0 IN IP4 127.0.0.1\r\n" +
-	"s=No Name\r\n" +
+	"s=origin\r\n" +
 	"c=IN IP4 127.0.0.1\r\n" +
 	"t=0 0\r\n" +
 	"a=tool:libavformat 57.83.100\r\n" +
@@ -31,6 +32,33 @@ const lcRtspOriginSdp = "v=0\r\n" +
 	"a=rtpmap:97 MPEG4-GENERIC/44100/2\r\n" +
 	"a=fmtp:97 profile-level-id=1;mode=AAC-hbr;sizelength=13;indexlength=3;indexdeltalength=3; config=1210\r\n" +
 	"a=control:streamid=1\r\n"
+
+// lcSdpOwner projects what an RTSP player has received on its connection to whose description it was given: the
+// session-name line (s=) of the first description in the bytes - the origin stub's says "origin" (-> "pull"), the
+// ANNOUNCE of the driver's RTSP publisher x says "pub-x" (-> x); "" when no description has arrived.
+func lcSdpOwner(b []byte) string {
+	s := string(b)
+	k := strings.Index(s, "application/sdp")
+	if k < 0 {
+		return ""
+	}
+	if k2 := strings.Index(s[k:], "\r\n\r\n"); k2 >= 0 {
+		for _, line := range strings.Split(s[k+k2+4:], "\n") {
+			line = strings.TrimRight(line, "\r")
+			if strings.HasPrefix(line, "s=") {
+				switch name := line[2:]; {
+				case name == "origin":
+					return "pull"
+				case strings.HasPrefix(name, "pub-"):
+					return name[4:]
+				default:
+					return "other:" + name
+				}
+			}
+		}
+	}
+	return "other"
+}
 
 // lcRtspOriginServe serves one connection until it ends.  played is closed when the PLAY request has been answered (or,
 // with stall, when the first SETUP request has arrived); getParam: the origin advertises GET_PARAMETER (lal then runs the
@@ -125,4 +153,40 @@ func lcRtspOriginServe(c net.Conn, getParam bool, stall bool, played chan struct
 			once.Do(func() { close(played) })
 		}
 	}
+}
+
+// lcPeerClosed reports whether the peer closes the connection within d (data that arrives meanwhile is skipped).
+func lcPeerClosed(c net.Conn, d time.Duration) bool {
+	_ = c.SetReadDeadline(time.Now().Add(d))
+	defer c.SetReadDeadline(time.Time{})
+	buf := make([]byte, 512)
+	for {
+		if _, err := c.Read(buf); err != nil {
+			if ne, ok := err.(net.Error); ok && ne.Timeout() {
+				return false
+			}
+			return true
+		}
+	}
+}
+
+// lcPsStaleSend: the device of a GB28181 session (TCP mode) that has ended sends three more access units.  On a connection that
+// has been closed the second write fails and nothing can arrive; if every write went through the connection is
+// still served, and what lal does with the units needs a moment to show.
+func lcPsStaleSend(s *lcSession) {
+	if s.psConn != nil {
+		ok := 0
+		for k := int64(0); k < 3; k++ {
+			_ = s.psConn.SetWriteDeadline(time.Now().Add(time.Second))
+			if _, err := s.psConn.Write(s.psSeq.Good(90000 + 3600*k)); err == nil {
+				ok++
+			}
+			time.Sleep(10 * time.Millisecond)
+		}
+		if ok == 3 {
+			time.Sleep(150 * time.Millisecond)
+		}
+		return
+	}
+	// (UDP mode: the port it was given may belong to a session of another scenario by now - nothing is sent)
 }
